@@ -9,6 +9,8 @@ name="$1"; wt=/tmp/sw/$name
 if [ -d /tmp/sw/base/target ] && [ ! -d "$wt/target" ]; then
   cp -al /tmp/sw/base/target "$wt/target"
   rm -rf "$wt/target/debug/incremental"
+  # a hard-linked lock file would serialise the builds of all worktrees
+  rm -f "$wt/target/debug/.cargo-lock" "$wt/target/.cargo-lock"
 fi
 mkdir -p "$wt/SEEDED"
 echo "$wt"
